@@ -28,7 +28,9 @@ def gen_fields(rng, size, malformed):
             elif form < 0.85 or not malformed:
                 end = start + 1
             else:
-                end = start + rng.choice([0, 2, 3])
+                end = start + rng.choice([0, 2, 3, -1, -2])     # zero-width, too wide, reversed
+                if end < 0:
+                    end = 0
             conv = adef.mk_direct("crate::Ty") if (malformed and rng.random() < 0.15) else None
         else:
             conv = None
